@@ -38,7 +38,7 @@ func defaultServiceConfigOf(dopts []grpc.DialOption) (js string, ok bool) {
 		fn.Call([]reflect.Value{do})
 	}
 	if !do.IsValid() {
-		return "", false
+		return "", len(dopts) == 0 // no options at all: nothing unreadable, and no service config
 	}
 	fld := do.Elem().FieldByName("defaultServiceConfigRawJSON")
 	if !fld.IsValid() || fld.Kind() != reflect.Ptr || fld.Type().Elem().Kind() != reflect.String {
